@@ -12,6 +12,8 @@ KNOWN = [
     ("C12-P-read_bitpacked-width-25-32-shift", "C12", r"^read_bitpacked\[w=(25|26|27|28|29|30|31|32),itemsize=4\]\.shift_in_range"),
     ("C11-P-read_bitpacked-width0-cursor", "C11", r"^read_bitpacked\[w=0,itemsize=[14]\]\.closure\.invariant_on_entry"),
     ("C11-P-read_bitpacked-zero-groups-cursor", "C11", r"^read_bitpacked\[w=\d+,itemsize=4\]\[groups=0\]\.(closure\.invariant_on_entry|input_cursor)"),
+    ("C11-P-delta-width-29-64", "C11", r"^delta_read_bitpacked\[w=(29|30|31|32|33|34|35|36|37|38|39|40|41|42|43|44|45|46|47|48|49|50|51|52|53|54|55|56|57|58|59|60|61|62|63|64),longval=[01]\]\.(closure\..*accumulator_holds_stream_bits|closure_completed)"),
+    ("C12-P-delta-width-29-64-shift", "C12", r"^delta_read_bitpacked\[w=(29|30|31|32|33|34|35|36|37|38|39|40|41|42|43|44|45|46|47|48|49|50|51|52|53|54|55|56|57|58|59|60|61|62|63|64),longval=[01]\]\.shift_in_range"),
     ("C12-P-mask-for-bits-32-shift", "C12", r"^_mask_for_bits\[i=32\]\.shift_in_range"),
     ("C11-P-numpyio-read-zero", "C11", r"^NumpyIO\.read\.view\[x==0\]"),
     ("C12-P-numpyio-write-wild-memcpy", "C12", r"^NumpyIO\.write\..*memcpy_dest_in_region"),
